@@ -952,6 +952,14 @@ def g_period(fn, edge):
         s_ = (k or {}).get("s", "")
         if re.search(r"Duration::(SECOND|MILLISECOND|MICROSECOND|NANOSECOND|MAX)$", s_):
             return True, "period is the constant %s" % s_
+        # a named constant of this crate: its initialiser is a body of its own
+        cf = fn.prog.fns.get(fn.crate + "::" + s_) if s_ else None
+        if cf is not None and cf.arg_count == 0:
+            for cc in cf.calls:
+                if re.search(r"time::Duration::from_(secs|millis|micros|nanos)$", cc.path or "") and cc.dest == [0] and cc.args:
+                    v = cf.int_of(cc.args[0])
+                    if v is not None and v > 0:
+                        return True, "period is the constant %s = Duration::%s(%d)" % (s_, cc.path.rsplit("::", 1)[1], v)
         return False, ""
     for kind, info in fn.trace(l):
         if kind == "call":
